@@ -306,3 +306,30 @@ pub fn explicit_full(bdd: &Bdd, ctx: &SymbolicContext, bn: &BooleanNetwork, k: u
     }
     out
 }
+
+/// Build a raw symbolic set from full tuples [colour, state, x_1, ..., x_k] (inverse of `explicit_full`).
+pub fn set_of_full_tuples(tuples: &[Vec<u64>], ctx: &SymbolicContext, bn: &BooleanNetwork, k: usize) -> GraphColoredVertices {
+    let rows = colour_rows(ctx, bn);
+    let svars = ctx.state_variables().clone();
+    let copies: Vec<Vec<BddVariable>> = (0..k)
+        .map(|i| bn.variables().map(|v| ctx.extra_state_variables(v)[i]).collect())
+        .collect();
+    let vs = ctx.bdd_variable_set();
+    let mut acc = vs.mk_false();
+    for t in tuples {
+        let mut cube = vs.mk_true();
+        for (j, r) in rows.iter().enumerate() {
+            cube = cube.and(&vs.mk_literal(*r, (t[0] >> j) & 1 == 1));
+        }
+        for (j, v) in svars.iter().enumerate() {
+            cube = cube.and(&vs.mk_literal(*v, (t[1] >> j) & 1 == 1));
+        }
+        for i in 0..k {
+            for (j, v) in copies[i].iter().enumerate() {
+                cube = cube.and(&vs.mk_literal(*v, (t[2 + i] >> j) & 1 == 1));
+            }
+        }
+        acc = acc.or(&cube);
+    }
+    GraphColoredVertices::new(acc, ctx)
+}
